@@ -484,6 +484,14 @@ def lookup3(reg):
                                     'for q in range(len(table_array))) for p in range(len(table_array))) or '
                                     '(result == "#N/A" and all(implies(' + VG.format(i='q') + ', R(table_array[q][0]) > R(lookup_value)) '
                                     'for q in range(len(table_array))))',
+            # the same fact with the witness on the side of the hypothesis (no exists-forall alternation in the refutation
+            # query, so a change that returns another row's entry gets a model instead of a timeout)
+            'entry_of_every_last_row_not_greater': 'all(implies(' + VG.format(i='q') + ' and R(table_array[q][0]) <= R(lookup_value) and '
+                                    'all(implies(r > q and ' + VG.format(i='r') + ', R(table_array[r][0]) > R(lookup_value)) '
+                                    'for r in range(len(table_array))), result == table_array[q][I(col_index_num) - 1]) '
+                                    'for q in range(len(table_array)))',
+            'na_when_every_key_is_greater': 'implies(all(implies(' + VG.format(i='q') + ', R(table_array[q][0]) > R(lookup_value)) '
+                                    'for q in range(len(table_array))), result == "#N/A")',
         },
         invariants={0: {
             'last': '(last_valid_value == "#N/A" and all(not ' + VG.format(i='q') + ' for q in range(k0))) or '
